@@ -27,8 +27,8 @@ BL_EPS = {"blacklist", "refundUsers", "unblacklist"}
 PROPS = {
     "C01": dict(
         title="Ticket-payment solvency",
-        lean=["LP.Props.C01"],
-        profiles=[("life", ALL_VARIANTS)],
+        lean=["LP.Props.C01", "LP.Props.C01reach"],
+        profiles=[("life", ALL_VARIANTS), ("chunks", ALL_VARIANTS)],
         R={"xf.pay": {"claim", "claimPayment", "blacklist", "refundUsers"},
            "st": ({"claim", "claimPayment"}, FUNDS_MSGS)},
         D={"bal.pay": ANY, "cpay": ANY, "price": {"claim", "claimPayment", "confirm", "select", "distribute", "secondary"}},
@@ -43,8 +43,8 @@ PROPS = {
     ),
     "C03": dict(
         title="Exactly min(T, confirmed) distinct winners",
-        lean=["LP.Props.C03base", "LP.Props.C03final"],
-        profiles=[("life", ALL_VARIANTS), ("fy", ["base", "guarV2"])],
+        lean=["LP.Props.C03base", "LP.Props.C03final", "LP.Props.C01reach"],
+        profiles=[("life", ALL_VARIANTS), ("fy", ["base", "guarV2"]), ("chunks", GUAR)],
         R={"ret": {"select", "distribute", "secondary"}},
         D={"nrw": SELECT_EPS, "status": SELECT_EPS, "cpay": SELECT_EPS, "last": SELECT_EPS, "addr.win": SELECT_EPS},
     ),
@@ -102,14 +102,14 @@ PROPS = {
     "C11": dict(
         title="Guarantees honoured with the holder's own tickets",
         lean=["LP.Props.C11topup"],
-        profiles=[("life", GUAR)],
+        profiles=[("life", GUAR), ("chunks", GUAR)],
         R={"ret": {"distribute", "secondary"}},
         D={"status": {"distribute", "secondary"}, "addr.win": {"distribute", "secondary"}},
     ),
     "C12": dict(
         title="Guarantee reserve conserved; leftovers re-drawn",
         lean=["LP.Props.C12reserve", "LP.Props.C03final"],
-        profiles=[("life", GUAR)],
+        profiles=[("life", GUAR), ("chunks", GUAR)],
         R={"st": [(ALLOC_EPS | BL_EPS, RESERVE_MSGS), ({"deposit"}, ["Wrong amount"])],
            "draws": {"distribute", "secondary"}},
         D={"nrw": ALLOC_EPS | BL_EPS | {"distribute", "secondary"}, "tg": ANY, "wl": ALLOC_EPS | BL_EPS,
@@ -126,7 +126,7 @@ PROPS = {
     "C14": dict(
         title="NFT draw and fees",
         lean=["LP.Props.C14"],
-        profiles=[("life", ["nft", "nftGuar"])],
+        profiles=[("life", ["nft", "nftGuar"]), ("chunks", ["nft", "nftGuar"])],
         R={"st": ({"confirmNft", "selectNft", "secondary", "setNftCost"}, None), "sft": ANY,
            "xf.fee": {"claim", "claimPayment", "blacklist"}, "ret": {"selectNft", "secondary"}},
         D={k: ANY for k in ["payers", "nftw", "cnft", "cost", "avail", "addr.paid", "addr.won", "bal.fee"]},
@@ -148,7 +148,7 @@ PROPS = {
     "C17": dict(
         title="Sale terms frozen",
         lean=["LP.Props.C17"],
-        profiles=[("life", ALL_VARIANTS)],
+        profiles=[("timeline", ALL_VARIANTS), ("life", ALL_VARIANTS)],
         R={"st": ({"setTicketPrice", "setPerTicket", "setNftCost", "setSchedule1", "setSchedule2"}, None)},
         D={"price": ANY, "per": ANY, "cost": ANY, "sched": ANY},
     ),
@@ -169,7 +169,7 @@ PROPS = {
     "C20": dict(
         title="Events",
         lean=["LP.Props.C20"],
-        profiles=[("life", ALL_VARIANTS)],
+        profiles=[("life", ALL_VARIANTS), ("chunks", ALL_VARIANTS)],
         R={"ev": ANY},
         D={},
     ),
